@@ -77,8 +77,20 @@ pub enum Op {
     SetLocalParent { span: u16, probe: bool },
     EnterLocal { np: u8, s: StrSeed, probe: bool },
     CollectorStart { probe: bool },
-    PopGuard { collect: bool, early: bool },
-    PushChildSpans { span: u16, set: u16 },
+    PopGuard {
+        collect: bool,
+        early: bool,
+        /// the guard is dropped by a panic unwinding through it (caught right outside)
+        #[serde(default)]
+        unwind: bool,
+    },
+    PushChildSpans {
+        span: u16,
+        set: u16,
+        /// push by value and keep no clone of the set
+        #[serde(default)]
+        last: bool,
+    },
     ToSpanRecords { set: u16, tc: u8, tr: u64, pr: u64 },
     AddProps { handle: Option<u16>, n: u8, s: StrSeed, re: Vec<Mini> },
     AddEvent { handle: Option<u16>, n: u8, s: StrSeed, re: Vec<Mini> },
@@ -99,6 +111,8 @@ pub enum Op {
     Fill { leave: u8 },
     /// a backlog of `n` cheap commands on this thread's queue (no overload: the ring keeps room)
     Bulk { n: u16 },
+    /// `n` whole traces in a row on this thread: root created and finished (2 forced/plain commands each)
+    Volley { n: u8 },
     /// scope-limit episode: n local spans/events/props in the current scope
     Burst { n: u16, kind: u8 },
     /// nest `n` local-parent scopes / collectors (popped by the normaliser)
@@ -120,6 +134,10 @@ pub struct Program {
     pub cycles: u8,
     /// (vthread choice, run length in yield points)
     pub schedule: Vec<(u8, u8)>,
+    /// sched engine: the collector also yields after every command it takes out of a queue (not
+    /// only before a queue and when it finds one empty)
+    #[serde(default)]
+    pub fine: bool,
 }
 
 /// Op kinds, used as weight indices.
@@ -155,6 +173,7 @@ pub enum K {
     DropAdapter,
     Fill,
     Bulk,
+    Volley,
     Burst,
     Nest,
     Churn,
@@ -199,6 +218,9 @@ pub enum Template {
     FanIn,
     /// extraction points: nested scopes with open local spans, then remote roots
     Extract,
+    /// a vthread fills its ring completely with harmless commands and exits at once (nothing is
+    /// parked, no signal is pending); other vthreads and cycles run around it
+    FullExit,
 }
 
 impl Profile {
@@ -327,13 +349,13 @@ pub fn op_strategy(p: &Profile) -> BoxedStrategy<Op> {
     add(K::CollectorStart, any::<bool>().prop_map(|probe| Op::CollectorStart { probe }).boxed());
     add(
         K::PopGuard,
-        (proptest::bool::weighted(0.85), proptest::bool::weighted(0.3))
-            .prop_map(|(collect, early)| Op::PopGuard { collect, early })
+        (proptest::bool::weighted(0.85), proptest::bool::weighted(0.3), proptest::bool::weighted(0.12))
+            .prop_map(|(collect, early, unwind)| Op::PopGuard { collect, early, unwind })
             .boxed(),
     );
     add(
         K::PushChildSpans,
-        (any::<u16>(), any::<u16>()).prop_map(|(span, set)| Op::PushChildSpans { span, set }).boxed(),
+        (any::<u16>(), any::<u16>(), proptest::bool::weighted(0.3)).prop_map(|(span, set, last)| Op::PushChildSpans { span, set, last }).boxed(),
     );
     add(
         K::ToSpanRecords,
@@ -411,6 +433,7 @@ pub fn op_strategy(p: &Profile) -> BoxedStrategy<Op> {
     }
     add(K::Fill, (0u8..4).prop_map(|leave| Op::Fill { leave }).boxed());
     add(K::Bulk, prop_oneof![2 => 100u16..9500, 2 => 4000u16..4200, 1 => 8100u16..8300].prop_map(|n| Op::Bulk { n }).boxed());
+    add(K::Volley, prop_oneof![2 => 1u8..8, 3 => 60u8..110].prop_map(|n| Op::Volley { n }).boxed());
     add(
         K::Burst,
         (0u16..60, 0u8..3).prop_map(|(n, kind)| Op::Burst { n, kind }).boxed(),
@@ -441,8 +464,9 @@ fn template_strategy(p: &Profile, t: Template) -> BoxedStrategy<Program> {
             proptest::collection::vec(op, 0..6),
             2u8..8,
             sched,
+            prop_oneof![2 => Just(0u8), 1 => 1u8..8, 2 => 60u8..110],
         )
-            .prop_map(move |(cancelable, leave, do_cancel, child_first, pre, post, other, cycles, schedule)| {
+            .prop_map(move |(cancelable, leave, do_cancel, child_first, pre, post, other, cycles, schedule, volley)| {
                 let mut t0 = vec![root.clone()];
                 if child_first {
                     t0.push(Op::Child { parents: vec![0], np: 0, s: StrSeed { c: 0, l: 1 } });
@@ -453,10 +477,14 @@ fn template_strategy(p: &Profile, t: Template) -> BoxedStrategy<Program> {
                 if do_cancel {
                     t0.push(Op::Cancel { span: 0 });
                 }
+                if volley > 0 {
+                    // more forced commands parked behind the parked cancel/finish of this thread
+                    t0.push(Op::Volley { n: volley });
+                }
                 t0.push(Op::Finish { span: 0 });
                 t0.push(Op::Flush);
                 t0.extend(post);
-                Program { cancelable, threads: vec![t0, other], cycles, schedule }
+                Program { cancelable, threads: vec![t0, other], cycles, schedule, fine: false }
             })
             .boxed(),
         Template::Forest => (
@@ -464,7 +492,7 @@ fn template_strategy(p: &Profile, t: Template) -> BoxedStrategy<Program> {
             proptest::collection::vec(
                 prop_oneof![
                     5 => (0u8..3, strseed(p.str_classes)).prop_map(|(np, s)| Op::EnterLocal { np, s, probe: false }),
-                    4 => Just(Op::PopGuard { collect: true, early: false }),
+                    4 => Just(Op::PopGuard { collect: true, early: false, unwind: false }),
                     2 => (0u8..3, strseed(p.str_classes)).prop_map(|(n, s)| Op::AddEvent { handle: None, n, s, re: vec![] }),
                     2 => (1u8..3, strseed(p.str_classes)).prop_map(|(n, s)| Op::AddProps { handle: None, n, s, re: vec![] }),
                 ],
@@ -510,16 +538,16 @@ fn template_strategy(p: &Profile, t: Template) -> BoxedStrategy<Program> {
                     }
                 }
                 while depth > open_at_collect.min(3) {
-                    t1.push(Op::PopGuard { collect: true, early: false });
+                    t1.push(Op::PopGuard { collect: true, early: false, unwind: false });
                     depth -= 1;
                 }
-                t1.push(Op::PopGuard { collect: true, early: depth > 0 });
+                t1.push(Op::PopGuard { collect: true, early: depth > 0, unwind: false });
                 for sp in pushes {
-                    t1.push(Op::PushChildSpans { span: sp, set: 0 });
+                    t1.push(Op::PushChildSpans { span: sp, set: 0, last: false });
                 }
                 t1.push(Op::ToSpanRecords { set: 0, tc: 1, tr: 77, pr: 99 });
                 t1.extend(tail);
-                Program { cancelable, threads: vec![t0, t1], cycles, schedule }
+                Program { cancelable, threads: vec![t0, t1], cycles, schedule, fine: false }
             })
             .boxed(),
         Template::FanIn => (canc, 1usize..4, proptest::collection::vec(op.clone(), 0..3), proptest::collection::vec(op.clone(), 0..3), 1u8..6, sched)
@@ -535,7 +563,7 @@ fn template_strategy(p: &Profile, t: Template) -> BoxedStrategy<Program> {
                 }
                 t1.extend(b);
                 let t2 = vec![Op::Flush, Op::Finish { span: 0 }];
-                Program { cancelable, threads: vec![t0, t1, t2], cycles, schedule }
+                Program { cancelable, threads: vec![t0, t1, t2], cycles, schedule, fine: false }
             })
             .boxed(),
         Template::Extract => (canc, proptest::collection::vec(op.clone(), 0..6), any::<bool>(), any::<bool>(), 0u8..3, sched)
@@ -552,11 +580,22 @@ fn template_strategy(p: &Profile, t: Template) -> BoxedStrategy<Program> {
                 t0.push(Op::CtxOfSpan { span: 65535 });
                 t0.push(Op::RootFromCtx { ctx: 65535, via_tp, s: StrSeed { c: 0, l: 3 } });
                 t0.push(Op::RootFromCtx { ctx: 20000, via_tp: !via_tp, s: StrSeed { c: 0, l: 3 } });
-                t0.push(Op::PopGuard { collect: true, early: false });
+                t0.push(Op::PopGuard { collect: true, early: false, unwind: false });
                 t0.push(Op::CtxOfLocal);
                 t0.push(Op::RootFromCtx { ctx: 65535, via_tp, s: StrSeed { c: 0, l: 3 } });
                 t0.extend(tail);
-                Program { cancelable, threads: vec![t0], cycles, schedule }
+                Program { cancelable, threads: vec![t0], cycles, schedule, fine: false }
+            })
+            .boxed(),
+        Template::FullExit => (canc, proptest::collection::vec(op.clone(), 0..4), proptest::collection::vec(op.clone(), 0..6), proptest::collection::vec(op.clone(), 0..6), 0u8..2, 1u8..6, sched)
+            .prop_map(move |(cancelable, pre, t1, t2, leave, cycles, schedule)| {
+                let mut t0 = pre;
+                // the generated prefix leaves no unfinished root behind on this vthread's account:
+                // whatever it left is finished by the reaper through its own queue
+                t0.retain(|o| !matches!(o, Op::Fill { .. } | Op::Volley { .. } | Op::Exit));
+                t0.push(Op::Fill { leave });
+                t0.push(Op::Exit);
+                Program { cancelable, threads: vec![t0, t1, t2], cycles, schedule, fine: false }
             })
             .boxed(),
         Template::CrossQueue => (canc, any::<bool>(), proptest::collection::vec(op.clone(), 0..4), proptest::collection::vec(op, 0..4), 1u8..5, sched)
@@ -569,19 +608,28 @@ fn template_strategy(p: &Profile, t: Template) -> BoxedStrategy<Program> {
                 }
                 t1.push(Op::Finish { span: 0 });
                 t1.extend(b);
-                Program { cancelable, threads: vec![t0, t1], cycles, schedule }
+                Program { cancelable, threads: vec![t0, t1], cycles, schedule, fine: false }
             })
             .boxed(),
     }
 }
 
 pub fn program_strategy(p: &Profile) -> BoxedStrategy<Program> {
+    (program_strategy_inner(p), proptest::bool::weighted(0.3))
+        .prop_map(|(mut prog, fine)| {
+            prog.fine = fine;
+            prog
+        })
+        .boxed()
+}
+
+fn program_strategy_inner(p: &Profile) -> BoxedStrategy<Program> {
     if !p.templates.is_empty() {
         let mut v: Vec<(u32, BoxedStrategy<Program>)> = Vec::new();
         let tw: u32 = p.templates.iter().map(|t| t.0).sum();
         let mut free = p.clone();
         free.templates.clear();
-        v.push((10u32.saturating_sub(tw).max(1), program_strategy(&free)));
+        v.push((10u32.saturating_sub(tw).max(1), program_strategy_inner(&free)));
         for (w, t) in &p.templates {
             v.push((*w, template_strategy(p, *t)));
         }
@@ -607,6 +655,7 @@ pub fn program_strategy(p: &Profile) -> BoxedStrategy<Program> {
             threads,
             cycles,
             schedule,
+            fine: false,
         })
         .boxed()
 }
